@@ -224,6 +224,8 @@ def rule_rollback(ctx, rule='R04.7'):
 
 
 def run(ctx):
+    from . import c08 as _c08
+    _c08.rule_direction(ctx)     # R08.8: encounter sub-stepping reaches the step boundary in both directions of time
     from . import edges
     edges.rule_cached_count_identity(ctx, 'R10.13')  # JANUS does not write a stale integer state over merged particles
     from . import c01 as _c01
